@@ -18,3 +18,9 @@ pub broadcast axiom fn key_model_slot_ref() ensures #[trigger] vstd::std_specs::
 pub broadcast axiom fn key_model_slot() ensures #[trigger] vstd::std_specs::hash::obeys_key_model::<(crate::essential_types::ContentAddress, crate::essential_types::Key)>();
 pub broadcast axiom fn key_model_key() ensures #[trigger] vstd::std_specs::hash::obeys_key_model::<crate::essential_types::Key>();
 pub broadcast axiom fn key_model_ca() ensures #[trigger] vstd::std_specs::hash::obeys_key_model::<crate::essential_types::ContentAddress>();
+
+// ---- predicate graphs (C01 / C06)
+// a well-formed dependency graph: every node has a valid edge slice and every edge names an existing node
+pub open spec fn node_ok(starts: Seq<u16>, edges: Seq<u16>, i: int) -> bool {
+    match node_edges_spec(starts, edges, i) { Some(es) => forall|k: int| 0 <= k < es.len() ==> (#[trigger] es[k] as int) < starts.len(), None => false } }
+pub open spec fn graph_ok(starts: Seq<u16>, edges: Seq<u16>) -> bool { forall|i: int| 0 <= i < starts.len() ==> #[trigger] node_ok(starts, edges, i) }
